@@ -87,8 +87,11 @@ fn ids_arg(r: &mut Rng, n: usize) -> (Vec<usize>, &'static str) {
             (v, "duplicated")
         }
         3 => {
-            let mut v = if n > 0 { let k = r.small(2); r.vec_below(k, n) } else { vec![] };
-            v.push(n + r.below(2));
+            // one identifier past the end (just past it, far past it, or the largest integer), at any position
+            let mut v = if n > 0 { let k = r.small(3); r.vec_below(k, n) } else { vec![] };
+            let bad = match r.below(6) { 0 | 1 => n, 2 => n + 1, 3 => n + 1000, 4 => usize::MAX, _ => n + r.below(3) };
+            let at = r.below(v.len() + 1);
+            v.insert(at, bad);
             (v, "out_of_range")
         }
         4 if n > 0 => ((0..n).collect(), "all"),
@@ -123,7 +126,7 @@ impl C11 {
                 "new_node" => {
                     let l = r.below(3) as u32;
                     log.push(format!("new_node({})", l));
-                    let id = f.new_node(l);
+                    let id = if open { f.new_node(l) } else { f.hypergraph.new_node(l) };
                     m.w.push(l);
                     ctx.api("new_node");
                     ctx.check(id.0 == n, "new_node/fresh-id/value/any", || json!({"log": log, "observed": id.0, "expected": n}));
@@ -134,7 +137,12 @@ impl C11 {
                     let (s, t) = (r.vec_below(a, n), r.vec_below(b, n));
                     let l = r.below(4) as u64;
                     log.push(format!("new_edge({}, {:?}, {:?})", l, s, t));
-                    let id = f.new_edge(l, Hyperedge { sources: nid(&s), targets: nid(&t) });
+                    // the interface may be given as a struct, as a pair of vectors or as a pair of slices
+                    let id = match r.below(3) {
+                        0 => if open { f.new_edge(l, Hyperedge { sources: nid(&s), targets: nid(&t) }) } else { f.hypergraph.new_edge(l, Hyperedge { sources: nid(&s), targets: nid(&t) }) },
+                        1 => if open { f.new_edge(l, (nid(&s), nid(&t))) } else { f.hypergraph.new_edge(l, (nid(&s), nid(&t))) },
+                        _ => { let (a, b) = (nid(&s), nid(&t)); f.new_edge(l, (&a[..], &b[..])) }
+                    };
                     m.e.push(PEdge { l, s, t });
                     ctx.api("new_edge");
                     ctx.check(id.0 == ne, "new_edge/fresh-id/value/any", || json!({"log": log, "observed": id.0, "expected": ne}));
@@ -145,7 +153,7 @@ impl C11 {
                     let tt: Vec<u32> = (0..b).map(|_| r.below(3) as u32).collect();
                     let l = r.below(4) as u64;
                     log.push(format!("new_operation({}, {:?}, {:?})", l, st, tt));
-                    let (eid, (s, t)) = f.new_operation(l, st.clone(), tt.clone());
+                    let (eid, (s, t)) = if open { f.new_operation(l, st.clone(), tt.clone()) } else { f.hypergraph.new_operation(l, st.clone(), tt.clone()) };
                     let ws: Vec<usize> = (n..n + a).collect();
                     let wt: Vec<usize> = (n + a..n + a + b).collect();
                     m.w.extend(st);
@@ -161,7 +169,12 @@ impl C11 {
                     let k = r.below(ne);
                     let l = r.below(3) as u32;
                     log.push(format!("{}({}, {})", op, k, l));
-                    let id = if op == "add_edge_source" { f.add_edge_source(EdgeId(k), l) } else { f.add_edge_target(EdgeId(k), l) };
+                    let id = match (op == "add_edge_source", open) {
+                        (true, true) => f.add_edge_source(EdgeId(k), l),
+                        (true, false) => f.hypergraph.add_edge_source(EdgeId(k), l),
+                        (false, true) => f.add_edge_target(EdgeId(k), l),
+                        (false, false) => f.hypergraph.add_edge_target(EdgeId(k), l),
+                    };
                     m.w.push(l);
                     if op == "add_edge_source" { m.e[k].s.push(n) } else { m.e[k].t.push(n) }
                     ctx.api(op);
@@ -171,7 +184,7 @@ impl C11 {
                     if n == 0 { continue; }
                     let (a, b) = (r.below(n), r.below(n));
                     log.push(format!("unify({}, {})", a, b));
-                    f.unify(NodeId(a), NodeId(b));
+                    if open { f.unify(NodeId(a), NodeId(b)) } else { f.hypergraph.unify(NodeId(a), NodeId(b)) };
                     m.q.push((a, b));
                     unified = true;
                     ctx.api("unify");
@@ -195,7 +208,7 @@ impl C11 {
                     if unified && !ids.is_empty() {
                         deleted_after_unify = true;
                     }
-                    let res = guard(|| f.delete_nodes(&nid(&ids)));
+                    let res = guard(|| if open { f.delete_nodes(&nid(&ids)) } else { f.hypergraph.delete_nodes(&nid(&ids)) });
                     if must_return(ctx, "delete_nodes", kind, res, || json!({"log": log})).is_none() {
                         return;
                     }
@@ -213,7 +226,7 @@ impl C11 {
                         ctx.check(res.is_err(), "delete_edges/rejects-out-of-range/value/any", || json!({"log": log, "observed": "accepted"}));
                         continue;
                     }
-                    let res = guard(|| f.delete_edges(&eids));
+                    let res = guard(|| if open { f.delete_edges(&eids) } else { f.hypergraph.delete_edges(&eids) });
                     if must_return(ctx, "delete_edges", kind, res, || json!({"log": log})).is_none() {
                         return;
                     }
@@ -238,6 +251,17 @@ impl C11 {
                             log.push("with_nodes(wrong length)".into());
                             let res = f.clone().with_nodes(|mut v| { v.push(0); v });
                             ctx.check(res.is_none(), "with_nodes/some-iff-same-length/value/longer", || json!({"log": log}));
+                            if n > 0 {
+                                let res = f.clone().with_nodes(|mut v| { v.pop(); v });
+                                ctx.check(res.is_none(), "with_nodes/some-iff-same-length/value/shorter", || json!({"log": log}));
+                                let res = f.clone().with_nodes(|_| Vec::<u32>::new());
+                                ctx.check(res.is_none(), "with_nodes/some-iff-same-length/value/emptied", || json!({"log": log}));
+                            }
+                            // a relabelling may change the label type
+                            let res = f.clone().with_nodes(|v| v.iter().map(|x| format!("n{}", x)).collect::<Vec<String>>());
+                            let want: Vec<String> = m.w.iter().map(|x| format!("n{}", x)).collect();
+                            ctx.check(matches!(&res, Some(g) if g.hypergraph.nodes == want && g.hypergraph.edges == f.hypergraph.edges && g.hypergraph.adjacency == f.hypergraph.adjacency && g.hypergraph.quotient == f.hypergraph.quotient && g.sources == f.sources && g.targets == f.targets),
+                                "with_nodes/relabels-only-the-nodes/value/type_changing", || json!({"log": log}));
                         }
                     }
                 }
@@ -260,6 +284,14 @@ impl C11 {
                             log.push("with_edges(wrong length)".into());
                             let res = f.clone().with_edges(|mut v| { v.pop(); v.push(1); v.push(2); v });
                             ctx.check(res.is_none(), "with_edges/some-iff-same-length/value/longer", || json!({"log": log}));
+                            if ne > 0 {
+                                let res = f.clone().with_edges(|mut v| { v.pop(); v });
+                                ctx.check(res.is_none(), "with_edges/some-iff-same-length/value/shorter", || json!({"log": log}));
+                            }
+                            let res = f.clone().map_edges(|x| format!("op{}", x));
+                            let want: Vec<String> = m.e.iter().map(|e| format!("op{}", e.l)).collect();
+                            ctx.check(res.hypergraph.edges == want && res.hypergraph.nodes == f.hypergraph.nodes && res.hypergraph.adjacency == f.hypergraph.adjacency && res.sources == f.sources && res.targets == f.targets,
+                                "map_edges/relabels-only-the-edges/value/type_changing", || json!({"log": log}));
                         }
                     }
                 }
@@ -328,6 +360,17 @@ impl C11 {
             // edges
             let ne = m.e.len();
             let (ids, kind) = ids_arg(r, ne);
+            if kind == "out_of_range" {
+                let eids: Vec<EdgeId> = ids.iter().map(|&i| EdgeId(i)).collect();
+                let mut c = h.clone();
+                let res = guard(|| c.delete_edges(&eids));
+                ctx.check(res.is_err(), "Hypergraph::delete_edges/rejects-out-of-range/value/any", || json!({"log": log, "ids": ids}));
+                let mut c = h.clone();
+                #[allow(deprecated)]
+                let res = guard(|| c.delete_edge(&eids));
+                ctx.check(res.is_err(), "Hypergraph::delete_edge(alias)/rejects-out-of-range/value/any", || json!({"log": log, "ids": ids}));
+                ctx.class("hypergraph_delete_edges_out_of_range");
+            }
             if kind != "out_of_range" {
                 log.push(format!("delete_edges({:?})", ids));
                 let eids: Vec<EdgeId> = ids.iter().map(|&i| EdgeId(i)).collect();
@@ -397,7 +440,7 @@ impl C11 {
         ctx.check(json_contains(&val, &expected_json(m)), "serde/documented-field-names/value/any", || json!({"log": log, "observed": val, "expected_keys_and_values": expected_json(m)}));
         match guard(|| serde_json::from_str::<L>(&text)) {
             Ok(Ok(back)) => {
-                ctx.check(back == *f, "serde/round-trip-unchanged/value/any", || json!({"log": log, "text": text}));
+                ctx.check(back == *f && from_lax_raw(&back) == *m && lax_lens(&back) == plax_lens(m), "serde/round-trip-unchanged/value/any", || json!({"log": log, "text": text}));
             }
             _ => {
                 ctx.check(false, "serde/deserialises/value/any", || json!({"log": log, "text": text}));
@@ -407,12 +450,93 @@ impl C11 {
         let readme_shape = expected_json(m).to_string();
         match guard(|| serde_json::from_str::<L>(&readme_shape)) {
             Ok(Ok(back)) => {
-                ctx.check(back == *f, "serde/reads-documented-format/value/any", || json!({"log": log, "text": readme_shape}));
+                ctx.check(back == *f && from_lax_raw(&back) == *m && lax_lens(&back) == plax_lens(m), "serde/reads-documented-format/value/any", || json!({"log": log, "text": readme_shape}));
             }
             _ => {
                 ctx.check(false, "serde/reads-documented-format/value/any", || json!({"log": log, "text": readme_shape}));
             }
         }
+    }
+}
+
+#[derive(serde::Serialize, serde::Deserialize, Debug, Clone, PartialEq)]
+enum ReadmeTy {
+    Interval { lower: i64, upper: i64 },
+    Int,
+}
+#[derive(serde::Serialize, serde::Deserialize, Debug, Clone, PartialEq)]
+enum ReadmeOp {
+    Cast,
+    Neg,
+    Add,
+}
+
+const README_JSON: &str = r#"{
+    "sources": [3,0],
+    "targets": [4],
+    "hypergraph": {
+        "nodes":[
+            {"Interval":{"lower":0,"upper":1}},
+            "Int","Int","Int","Int"
+        ],
+        "edges": ["Cast","Neg","Add"],
+        "adjacency": [
+            {"sources":[0],"targets":[1]},
+            {"sources":[1],"targets":[2]},
+            {"sources":[3,2],"targets":[4]}
+        ],
+        "quotient":[[],[]]
+    }
+}"#;
+
+impl C11 {
+    /// the README's example, verbatim, with enum label types (one of them a struct variant); and the
+    /// persisted form of the building blocks on their own
+    fn readme_example(&self, ctx: &mut Ctx) {
+        type LR = lax::OpenHypergraph<ReadmeTy, ReadmeOp>;
+        ctx.api("serde_json");
+        ctx.class("readme_example_with_enum_labels");
+        let parsed = guard(|| serde_json::from_str::<LR>(README_JSON));
+        match parsed {
+            Ok(Ok(f)) => {
+                use ReadmeTy::*;
+                let h = &f.hypergraph;
+                let adj: Vec<(Vec<usize>, Vec<usize>)> = h.adjacency.iter().map(|a| (a.sources.iter().map(|v| v.0).collect(), a.targets.iter().map(|v| v.0).collect())).collect();
+                let ok = f.sources == vec![NodeId(3), NodeId(0)]
+                    && f.targets == vec![NodeId(4)]
+                    && h.nodes == vec![Interval { lower: 0, upper: 1 }, Int, Int, Int, Int]
+                    && h.edges == vec![ReadmeOp::Cast, ReadmeOp::Neg, ReadmeOp::Add]
+                    && adj == vec![(vec![0], vec![1]), (vec![1], vec![2]), (vec![3, 2], vec![4])]
+                    && h.quotient.0.is_empty()
+                    && h.quotient.1.is_empty();
+                ctx.check(ok, "serde/reads-documented-format/value/readme_example", || json!({"observed": format!("{:?}", f)}));
+                match guard(|| serde_json::to_value(&f)) {
+                    Ok(Ok(v)) => {
+                        let want: Value = serde_json::from_str(README_JSON).unwrap();
+                        ctx.check(json_contains(&v, &want), "serde/documented-field-names/value/readme_example", || json!({"observed": v, "expected_keys_and_values": want}));
+                        let back = guard(|| serde_json::from_value::<LR>(v.clone()));
+                        ctx.check(matches!(&back, Ok(Ok(b)) if *b == f), "serde/round-trip-unchanged/value/readme_example", || json!({"text": v}));
+                    }
+                    _ => {
+                        ctx.check(false, "serde/serialises/value/readme_example", || json!({}));
+                    }
+                }
+            }
+            other => {
+                ctx.check(false, "serde/reads-documented-format/value/readme_example", || json!({"observed": format!("{:?}", other.map(|r| r.map(|_| ()).map_err(|e| e.to_string())).map_err(|p| p.msg))}));
+            }
+        }
+        // identifiers are bare integers; a hyperedge and a bare hypergraph round-trip on their own
+        let ids = guard(|| (serde_json::to_string(&NodeId(7)).ok(), serde_json::to_string(&EdgeId(3)).ok(), serde_json::from_str::<EdgeId>("3").ok(), serde_json::from_str::<NodeId>("7").ok()));
+        ctx.check(matches!(&ids, Ok((Some(a), Some(b), Some(EdgeId(3)), Some(NodeId(7)))) if a == "7" && b == "3"), "serde/identifiers-are-bare-integers/value/any", || json!({"observed": format!("{:?}", ids.as_ref().ok())}));
+        let e = Hyperedge { sources: vec![NodeId(1), NodeId(1)], targets: vec![] };
+        let ev = guard(|| serde_json::to_value(&e).ok());
+        ctx.check(matches!(&ev, Ok(Some(v)) if json_contains(v, &json!({"sources": [1, 1], "targets": []}))), "serde/documented-field-names/value/hyperedge", || json!({"observed": format!("{:?}", ev.as_ref().ok())}));
+        let hg: lax::Hypergraph<u32, u64> = lax::Hypergraph { nodes: vec![0, 1], edges: vec![5], adjacency: vec![e.clone()], quotient: (vec![NodeId(0)], vec![NodeId(1)]) };
+        let rt = guard(|| serde_json::to_string(&hg).ok().and_then(|t| serde_json::from_str::<lax::Hypergraph<u32, u64>>(&t).ok()));
+        ctx.check(matches!(&rt, Ok(Some(b)) if *b == hg && b.nodes == hg.nodes && b.edges == hg.edges && b.adjacency == hg.adjacency && b.quotient == hg.quotient), "serde/round-trip-unchanged/value/bare_hypergraph", || json!({}));
+        ctx.nontrivial(&"readme");
+        ctx.sample("readme_example", || json!({"text": README_JSON}));
     }
 }
 
@@ -429,7 +553,7 @@ impl Monitor for C11 {
          must deserialise back to an equal diagram, and the documented shape must be readable. non-trivial = history with >=1 deletion after >=1 unify; distinct = hash of the step log."
     }
     fn corpus_len(&self) -> u64 {
-        4
+        5
     }
     fn floors(&self) -> Vec<(&'static str, u64)> {
         vec![
@@ -446,6 +570,8 @@ impl Monitor for C11 {
             ("class:delete_node_on_both_interfaces_and_in_pending_pair", 5),
             ("api:Hypergraph::delete_nodes_witness", 50),
             ("api:serde_json", 100),
+            ("class:readme_example_with_enum_labels", 1),
+            ("class:hypergraph_delete_edges_out_of_range", 20),
             ("api:add_edge_source", 100),
             ("api:add_edge_target", 100),
             ("api:new_operation", 100),
@@ -459,6 +585,7 @@ impl Monitor for C11 {
             1 => self.history(ctx, r, true, Some(vec!["new_operation", "unify", "delete_edges", "new_operation", "delete_nodes"])),
             2 => self.hypergraph_deletions(ctx, r),
             3 => self.fixed_scenario(ctx),
+            4 => self.readme_example(ctx),
             _ => match r.below(6) {
                 0 => self.hypergraph_deletions(ctx, r),
                 1 => self.history(ctx, r, false, None),
